@@ -13,6 +13,19 @@ evidence VALUE (it contains a logarithm) is checked by one coq-interval goal per
 case on the exact rationals -0.5 r^T J^-1 r and det J.
 
 Inputs are conditioned: cond(I + K W) and cond(A K A^T + S) <= 1e6.
+
+Three input streams:
+  cases      one inverter per process history, explicit kernel / mean instances, data of order one;
+  scales     the same walk with the SIGNAL in units 2^-40 .. 2^20 / 1e-7 .. 1e4 (kernel amplitude, mean
+             parameters, data and data errors scaled) and / or the FORWARD MODEL with a gain 2^-20 .. 2^10
+             (data errors down to ~1e-13): all tolerances are relative to the unit;
+  histories  sessions of 2-4 inverters constructed one after the other in the same process BEFORE any of
+             them is evaluated, with the kernel / mean arguments left at their defaults, given as classes
+             or as instances, same or different numbers of parameters, different positions.
+K, the prior mean and their gradients that go into the model are built by FRESH kernel / mean objects on
+the inverter's OWN positions; Model/InversionHistory.v (theorems C17_history_*) is the model of which
+object an inverter holds and whose spatial data it carries, evaluated by vm_compute on the generated
+history (coq/gen/C17/history.v) against what is observed on the real objects.
 """
 from __future__ import annotations
 
@@ -29,9 +42,14 @@ from lib import interval as IV
 PROP = "C17"
 THEOREMS = ["C17_inv_sigma", "C17_post_cov_closed", "C17_post_cov_precision",
             "C17_post_mean_closed", "C17_mean_only_eq_full", "C17_post_cov_sym",
-            "C17_post_cov_order", "C17_evidence_value", "C17_gradient_forms"]
+            "C17_post_cov_order", "C17_evidence_value", "C17_gradient_forms",
+            "C17_history_posterior", "C17_history_own_positions", "C17_history_shared_default_refuted"]
 
 HEADER = MX.HEADER.format(mods="Matrix.Inversion Matrix.InversionCheck")
+HIST_HEADER = """From Coq Require Import List.
+From IT Require Import Model.InversionHistory.
+Import ListNotations.
+"""
 EV_PREAMBLE = """From Coq Require Import Reals List QArith.
 From Interval Require Import Tactic.
 From IT Require Import Matrix.MxOps Matrix.ListOps Matrix.Inversion Matrix.InversionCheck Matrix.InversionEvidence.
@@ -51,10 +69,24 @@ OBLIGATION_NAMES = {
     8: "marginal_likelihood differs from -1/2 r^T J^-1 r - 1/2 ln det J",
 }
 
+HIST_OBLIGATION_NAMES = {
+    0: "the generated history is not well-formed (harness error)",
+    1: "two inverters hold the same kernel object (or the model's sharing structure is not the observed one)",
+    2: "two inverters hold the same mean-function object (or the model's sharing structure is not the observed one)",
+    3: "an inverter's kernel object does not carry the inverter's own parameter positions",
+    4: "an inverter's mean-function object does not carry the inverter's own parameter positions",
+}
+
 KERNELS = [["SE"], ["RQ"], ["sum", ["SE"], ["WN"]], ["sum", ["SE"], ["RQ"]], ["CP", [["SE"], ["RQ"]], 0]]
 MEANS = ["const", "linear", "quadratic"]
 SHAPES = ["tall", "wide", "square", "rank_deficient"]
 COND_MAX = 1e6
+# (unit of the signal, gain of the forward model): data and data errors are in units of unit * gain
+UNIT_PAIRS = [(2.0 ** -20, 1.0), (1.0, 2.0 ** -20), (1e-6, 1.0), (2.0 ** -30, 1.0), (2.0 ** -10, 2.0 ** -10),
+              (2.0 ** -23, 1.0), (1.0, 1e-6), (2.0 ** 10, 1.0), (1e-7, 1.0), (2.0 ** -10, 1.0), (2.0 ** -20, 2.0 ** -20),
+              (2.0 ** 20, 2.0 ** -20), (3e-9, 1.0), (1.0, 2.0 ** 10), (2.0 ** -40, 1.0), (1e-3, 1e-3),
+              (2.0 ** 20, 1.0), (2.0 ** -27, 2.0 ** 10), (1e4, 1.0), (2.0 ** -16, 2.0 ** -8)]
+CLASS_KERNELS = [["SE"], ["RQ"]]
 
 
 def INV():
@@ -67,17 +99,27 @@ def grid(r, lo, hi, q=64):
 
 
 # ---------------------------------------------------------------- generation
-def gen_A(r, shape):
-    if shape == "tall":
-        n = r.randint(1, 5)
-        m = r.randint(n + 1, 7)
+def gen_A(r, shape, n_fixed=None, top=7):
+    if n_fixed is not None:
+        n = n_fixed
+        if shape == "tall":
+            m = r.randint(n + 1, top)
+        elif shape == "wide":
+            m = r.randint(1, n - 1)
+        elif shape == "square":
+            m = n
+        else:
+            m = r.randint(2, top)
+    elif shape == "tall":
+        n = r.randint(1, top - 2)
+        m = r.randint(n + 1, top)
     elif shape == "wide":
-        m = r.randint(1, 5)
-        n = r.randint(m + 1, 7)
+        m = r.randint(1, top - 2)
+        n = r.randint(m + 1, top)
     elif shape == "square":
-        m = n = r.randint(1, 6)
+        m = n = r.randint(1, top - 1)
     else:
-        m, n = r.randint(2, 7), r.randint(2, 7)
+        m, n = r.randint(2, top), r.randint(2, top)
     A = np.array([[grid(r, -1.5, 1.5, 16) for _ in range(n)] for _ in range(m)], dtype=float)
     if shape == "rank_deficient":
         kind = r.choice(["dup_row", "zero_col", "rank1", "zero"])
@@ -94,12 +136,16 @@ def gen_A(r, shape):
     return A
 
 
-def gen_case(r, k, tier):
-    kern = KERNELS[k % len(KERNELS)]
-    mean = MEANS[(k // len(KERNELS)) % len(MEANS)]
-    shape = SHAPES[(k + k // (len(KERNELS) * len(MEANS))) % len(SHAPES)]
+def gen_case(r, k, tier, unit=1.0, gain=1.0, kern=None, mean=None, shape=None,
+             cov_arg="instance", mean_arg="instance", n_fixed=None, top=7):
+    """unit: physical unit of the signal (kernel amplitudes, mean parameters); gain: scale of the forward
+    model; the data and their errors are in units of unit * gain.  With unit = gain = 1 the draws are those
+    of the first version of this check."""
+    kern = kern or KERNELS[k % len(KERNELS)]
+    mean = mean or MEANS[(k // len(KERNELS)) % len(MEANS)]
+    shape = shape or SHAPES[(k + k // (len(KERNELS) * len(MEANS))) % len(SHAPES)]
     for _ in range(300):
-        A = gen_A(r, shape)
+        A = gen_A(r, shape, n_fixed, top)
         m, n = A.shape
         if MX.kernel_has(kern, "CP") and n < 2:
             continue
@@ -112,15 +158,45 @@ def gen_case(r, k, tier):
         # multiples of 1/16: the exact 1/e^2 then has a small denominator (k^2 | 2^6 3^4 5^2 7^2 11^2), which
         # keeps the rational arithmetic of the model cheap; the code's own y_err**-2 is a rounded double
         e = np.array([r.randint(2, 12) / 16 for _ in range(m)], dtype=float)
-        theta = MX.mean_hyperpars(r, mean, d) + MX.kernel_hyperpars(r, kern, n, d)
+        theta = ([v * unit for v in MX.mean_hyperpars(r, mean, d)]
+                 + MX.kernel_hyperpars(r, kern, n, d, 0.5 * unit, 3.0 * unit, 0.15 * unit, 0.6 * unit))
+        A, y, e = A * gain, y * (unit * gain), e * (unit * gain)
         case = {"m": m, "n": n, "d": d, "shape": shape, "rank": int(np.linalg.matrix_rank(A)),
                 "A": MX.hexlist(A), "y": MX.hexlist(y), "y_err": MX.hexlist(e), "positions": MX.hexlist(pos),
-                "kernel": kern, "mean": mean, "theta": MX.hexlist(theta)}
+                "kernel": kern, "mean": mean, "theta": MX.hexlist(theta),
+                "unit": float(unit), "gain": float(gain), "cov_arg": cov_arg, "mean_arg": mean_arg}
         c1, c2 = conds(case)
         if c1 <= COND_MAX and c2 <= COND_MAX:
             case["cond_system"], case["cond_J"] = c1, c2
             return case
     raise RuntimeError("could not condition a case")
+
+
+def gen_history(r, tier):
+    """A session: 2-4 inverters constructed in the same process before any of them is used.  Two of them
+    leave the kernel at its documented default (2 sessions in 3) or pass the same class; the others leave it
+    out, pass a class or pass an instance; three sessions in four use the same number of parameters
+    throughout (so that nothing but the positions distinguishes the inverters)."""
+    N = r.choice([2, 2, 3, 3, 4])
+    same_n = r.random() < 0.75
+    n0 = r.randint(2, 5)
+    forced = r.sample(range(N), 2)
+    # the two forced constructions name the kernel in the same way: both leave it out (2 in 3) or both pass
+    # the same class
+    forced_arg = r.choice(["default", "default", "class"])
+    forced_kern = ["SE"] if forced_arg == "default" else r.choice(CLASS_KERNELS)
+    out = []
+    for i in range(N):
+        cov_arg = forced_arg if i in forced else r.choice(["default", "class", "instance", "instance"])
+        mean_arg = r.choice(["default", "default", "class", "instance"])
+        if i in forced:
+            kern = forced_kern
+        else:
+            kern = ["SE"] if cov_arg == "default" else (r.choice(CLASS_KERNELS) if cov_arg == "class" else r.choice(KERNELS))
+        mean = "const" if mean_arg == "default" else r.choice(MEANS)
+        out.append(gen_case(r, 0, tier, kern=kern, mean=mean, shape=r.choice(SHAPES), cov_arg=cov_arg,
+                            mean_arg=mean_arg, n_fixed=n0 if same_n else None, top=6))
+    return out
 
 
 def arrays(case):
@@ -144,15 +220,67 @@ def conds(case):
 
 
 # ---------------------------------------------------------------- running the code
-def run_impl(case):
+def kernel_class(spec):
+    from inference.gp import SquaredExponential, RationalQuadratic, WhiteNoise
+    return {"SE": SquaredExponential, "RQ": RationalQuadratic, "WN": WhiteNoise}[spec[0]]
+
+
+def mean_class(name):
+    from inference.gp import ConstantMean, LinearMean, QuadraticMean
+    return {"const": ConstantMean, "linear": LinearMean, "quadratic": QuadraticMean}[name]
+
+
+def ctor_kwargs(case):
+    """The kernel / mean arguments as the caller writes them: left out (the documented defaults
+    SquaredExponential / ConstantMean), a class, or an instance made by the caller."""
+    kw = {}
+    ca, ma = case.get("cov_arg", "instance"), case.get("mean_arg", "instance")
+    if ca == "instance":
+        kw["prior_covariance_function"] = MX.make_kernel(case["kernel"])
+    elif ca == "class":
+        kw["prior_covariance_function"] = kernel_class(case["kernel"])
+    else:
+        assert case["kernel"] == ["SE"]
+    if ma == "instance":
+        kw["prior_mean_function"] = MX.make_mean(case["mean"])
+    elif ma == "class":
+        kw["prior_mean_function"] = mean_class(case["mean"])
+    else:
+        assert case["mean"] == "const"
+    return kw
+
+
+def fresh_prior(case, pos=None):
+    """Kernel and mean objects of the case's specification that no inverter has seen, carrying the given
+    positions (default: the case's own)."""
+    _, _, _, own, _ = arrays(case)
+    pos = own if pos is None else pos
+    cov, mean = MX.make_kernel(case["kernel"]), MX.make_mean(case["mean"])
+    cov.pass_spatial_data(pos.copy())
+    mean.pass_spatial_data(pos.copy())
+    return cov, mean
+
+
+def same(a, b):
+    a, b = np.asarray(a, dtype=float), np.asarray(b, dtype=float)
+    return a.shape == b.shape and bool(np.all(np.isfinite(a))) and np.allclose(a, b, rtol=1e-12, atol=0)
+
+
+def evaluate(inv, case):
+    """All outputs of one inverter at the case's hyper-parameters.  K, the prior mean and their gradients
+    that go into the model come from FRESH objects on the case's own positions (C10 ties those to the kernel
+    formulas); what the inverter's own objects build is compared with them."""
     A, y, e, pos, theta = arrays(case)
-    stage = "constructor"
+    stage = "reference kernel"
     try:
         with warnings.catch_warnings():
             warnings.simplefilter("ignore")
-            inv = INV()(y=y.copy(), y_err=e.copy(), model_matrix=A.copy(), parameter_spatial_positions=pos.copy(),
-                        prior_covariance_function=MX.make_kernel(case["kernel"]),
-                        prior_mean_function=MX.make_mean(case["mean"]))
+            fcov, fmean = fresh_prior(case)
+            nm = int(fmean.n_params)
+            K, dK = fcov.covariance_and_gradients(theta[nm:])
+            Kb = fcov.build_covariance(theta[nm:])
+            mu, dmu = fmean.mean_and_gradients(theta[:nm])
+            pm = fmean.build_mean(theta[:nm])
             # history dimension: the SAME array object is first used with other hyper-parameter
             # values (both posterior paths), then overwritten in place with the intended ones
             stage = "warm-up with perturbed hyper-parameters"
@@ -171,21 +299,31 @@ def run_impl(case):
             stage = "marginal_likelihood_gradient"
             lml_g, grad = inv.marginal_likelihood_gradient(theta)
             stage = "reading the kernel matrices"
-            K, dK = inv.cov.covariance_and_gradients(theta[inv.cov_slice])
-            Kb = inv.cov.build_covariance(theta[inv.cov_slice])
-            mu, dmu = inv.mean.mean_and_gradients(theta[inv.mean_slice])
-            pm = inv.mean.build_mean(theta[inv.mean_slice])
+            Ki, dKi = inv.cov.covariance_and_gradients(theta[inv.cov_slice])
+            Kbi = inv.cov.build_covariance(theta[inv.cov_slice])
+            mui, dmui = inv.mean.mean_and_gradients(theta[inv.mean_slice])
+            pmi = inv.mean.build_mean(theta[inv.mean_slice])
             out = {"status": "ok", "K": np.array(Kb, dtype=float), "pm": np.array(pm, dtype=float).reshape(-1),
                    "dK": [np.array(g, dtype=float) for g in dK],
                    "dmu": [np.array(g, dtype=float).reshape(-1) for g in dmu],
                    "pmean": np.array(pmean, dtype=float).reshape(-1), "pcov": np.array(pcov, dtype=float),
                    "mean_only": np.array(mo, dtype=float).reshape(-1), "lml": lml, "lml_g": float(lml_g),
-                   "grad": np.array(grad, dtype=float).reshape(-1), "n_mean": int(inv.mean.n_params),
-                   "A": np.array(inv.A, dtype=float), "y": np.array(inv.y, dtype=float)}
+                   "grad": np.array(grad, dtype=float).reshape(-1), "n_mean": nm,
+                   "A": np.array(inv.A, dtype=float), "y": np.array(inv.y, dtype=float),
+                   "K_inv": np.array(Kbi, dtype=float), "pm_inv": np.array(pmi, dtype=float).reshape(-1)}
             # the gradient routines must be talking about the same K and prior mean
-            if not (np.allclose(K, Kb, rtol=1e-12, atol=0) and np.allclose(mu, pm, rtol=1e-12, atol=0)):
+            if not (np.allclose(K, Kb, rtol=1e-12, atol=0) and np.allclose(mu, pm, rtol=1e-12, atol=0)
+                    and same(Ki, Kbi) and same(np.reshape(mui, -1), np.reshape(pmi, -1))):
                 return {"status": "inconsistent", "stage": "covariance_and_gradients",
                         "error": "K / prior mean from the gradient routines differ from build_covariance / build_mean"}
+            # ... and the inverter's own objects must build the prior of the inverter's own positions
+            foreign = []
+            if not same(Kbi, Kb):
+                foreign.append("inv.cov.build_covariance(theta) is not the kernel matrix of the inverter's own positions")
+            if not same(np.reshape(pmi, -1), np.reshape(pm, -1)):
+                foreign.append("inv.mean.build_mean(theta) is not the prior mean of the inverter's own positions")
+            if foreign:
+                out["foreign"] = "; ".join(foreign)
     except Exception as ex:
         return {"status": "exception", "stage": stage, "error": f"{type(ex).__name__}: {ex}"}
     m, n = case["m"], case["n"]
@@ -203,12 +341,107 @@ def run_impl(case):
     return out
 
 
+def holders(inv, case, session):
+    """The constructions j of the session whose positions reproduce what this inverter's kernel / mean
+    object builds at the case's hyper-parameters."""
+    _, _, _, _, theta = arrays(case)
+    hc, hm = [], []
+    try:
+        with warnings.catch_warnings():
+            warnings.simplefilter("ignore")
+            Kinv = np.array(inv.cov.build_covariance(theta[inv.cov_slice]), dtype=float)
+            pminv = np.array(inv.mean.build_mean(theta[inv.mean_slice]), dtype=float).reshape(-1)
+    except Exception:
+        return hc, hm
+    for j, other in enumerate(session):
+        try:
+            with warnings.catch_warnings():
+                warnings.simplefilter("ignore")
+                pos_j = arrays(other)[3]
+                fcov, fmean = fresh_prior(case, pos_j)
+                nm = int(fmean.n_params)
+                if theta.size != nm + fcov.n_params:
+                    continue
+                if same(Kinv, fcov.build_covariance(theta[nm:])):
+                    hc.append(j)
+                if same(pminv, np.reshape(fmean.build_mean(theta[:nm]), -1)):
+                    hm.append(j)
+        except Exception:
+            pass
+    return hc, hm
+
+
+def run_session(session):
+    """Construct ALL inverters of the session first (in order), then evaluate them (in order).  Returns
+    the outputs per inverter and the observed object structure of the session."""
+    invs, outs = [], []
+    calls, k_inst = [], 0
+    for case in session:
+        A, y, e, pos, theta = arrays(case)
+        kw = ctor_kwargs(case)
+        args = []
+        for key, kind in (("prior_covariance_function", case.get("cov_arg", "instance")),
+                          ("prior_mean_function", case.get("mean_arg", "instance"))):
+            if kind == "instance":
+                args.append(f"(KInst {k_inst})")
+                k_inst += 1
+            else:
+                args.append("KClass" if kind == "class" else "KDefault")
+        calls.append(f"CtorCall {args[0]} {args[1]} {len(calls)}")
+        try:
+            with warnings.catch_warnings():
+                warnings.simplefilter("ignore")
+                invs.append(INV()(y=y.copy(), y_err=e.copy(), model_matrix=A.copy(),
+                                  parameter_spatial_positions=pos.copy(), **kw))
+        except Exception as ex:
+            invs.append(None)
+            outs.append({"status": "exception", "stage": "constructor", "error": f"{type(ex).__name__}: {ex}"})
+            continue
+        outs.append(None)
+    obs = {"k": k_inst, "calls": calls, "cov_alias": [], "mean_alias": [], "cov_hold": [], "mean_hold": []}
+    for i, (inv, case) in enumerate(zip(invs, session)):
+        if inv is None:
+            obs["cov_alias"].append(i)
+            obs["mean_alias"].append(i)
+            obs["cov_hold"].append([])
+            obs["mean_hold"].append([])
+            continue
+        obs["cov_alias"].append(next(j for j, o in enumerate(invs) if o is not None and o.cov is inv.cov))
+        obs["mean_alias"].append(next(j for j, o in enumerate(invs) if o is not None and o.mean is inv.mean))
+        hc, hm = holders(inv, case, session)
+        obs["cov_hold"].append(hc)
+        obs["mean_hold"].append(hm)
+        outs[i] = evaluate(inv, case)
+    return outs, obs
+
+
+def run_impl(case):
+    return run_session([case])[0][0]
+
+
+def coq_hist(obs):
+    def nl(xs):
+        return "[" + "; ".join(str(int(x)) for x in xs) + "]"
+    f = [("h_k", str(obs["k"])), ("h_calls", "[" + "; ".join(obs["calls"]) + "]"),
+         ("h_cov_alias", nl(obs["cov_alias"])), ("h_mean_alias", nl(obs["mean_alias"])),
+         ("h_cov_hold", "[" + "; ".join(nl(h) for h in obs["cov_hold"]) + "]"),
+         ("h_mean_hold", "[" + "; ".join(nl(h) for h in obs["mean_hold"]) + "]")]
+    return "{| " + ";\n   ".join(f"{k} := {v}" for k, v in f) + " |}"
+
+
 def tolerances(case, out):
-    sk = max(float(np.abs(out["K"]).max()), 1e-6)
-    sm = max(float(np.abs(out["pm"]).max()), float(np.abs(out["pmean"]).max()), 1e-6)
-    sg = max(float(np.abs(out["grad"]).max()), 1.0)
+    """1e-7 of the scale of each output.  The floors are relative to the unit of the signal (1e-6 unit^2 for
+    covariances, 1e-6 unit for means) -- an absolute floor would switch the comparison off for data in small
+    units.  The gradient has two scales: d/d(mean parameter) is of order 1/unit, d/d(log kernel parameter)
+    of order one."""
+    u = float(case.get("unit", 1.0))
+    nm = out["n_mean"]
+    sk = max(float(np.abs(out["K"]).max()), 1e-6 * u * u)
+    sm = max(float(np.abs(out["pm"]).max()), float(np.abs(out["pmean"]).max()), 1e-6 * u)
+    sg = max(float(np.abs(out["grad"][nm:]).max(initial=0.0)), 1.0)
+    sgm = max(float(np.abs(out["grad"][:nm]).max(initial=0.0)), 1.0)
     sl = max(abs(out["lml"]), 1.0)
-    return {"c": 1e-7 * sk, "m": 1e-7 * sm, "g": 1e-7 * sg, "l": 1e-7 * sl}
+    return {"c": 1e-7 * sk, "m": 1e-7 * sm, "g": 1e-7 * sg, "gm": 1e-7 * sgm, "l": 1e-7 * sl}
 
 
 def coq_case(case, out):
@@ -224,7 +457,8 @@ def coq_case(case, out):
          ("o_mean_only", MX.qvec(out["mean_only"])),
          ("o_lml", C.cq(out["lml"])), ("o_lml_g", C.cq(out["lml_g"])),
          ("o_grad_mean", MX.qvec(out["grad"][:nm])), ("o_grad_cov", MX.qvec(out["grad"][nm:])),
-         ("t_c", MX.qtol(t["c"])), ("t_m", MX.qtol(t["m"])), ("t_g", MX.qtol(t["g"])), ("t_l", MX.qtol(t["l"]))]
+         ("t_c", MX.qtol(t["c"])), ("t_m", MX.qtol(t["m"])), ("t_g", MX.qtol(t["g"])), ("t_gm", MX.qtol(t["gm"])),
+         ("t_l", MX.qtol(t["l"]))]
     return "{| " + ";\n   ".join(f"{k} := {v}" for k, v in f) + " |}"
 
 
@@ -291,41 +525,168 @@ def oracle(case, out):
     if abs(out["lml"] - out["lml_g"]) > t["l"]:
         bad.append("marginal_likelihood_gradient reports a different evidence value")
     # gradient against central differences of the implementation's own evidence
+    A, y, e, pos, theta = arrays(case)
+    u = float(case.get("unit", 1.0))
+    nm = out["n_mean"]
+    steps = [1e-5 * (u if i < nm else 1.0) for i in range(theta.size)]
+    gmax = [max(float(np.abs(out["grad"][:nm]).max(initial=0.0)), 1.0)] * nm + \
+           [max(float(np.abs(out["grad"][nm:]).max(initial=0.0)), 1.0)] * (theta.size - nm)
     try:
-        A, y, e, pos, theta = arrays(case)
         inv = INV()(y=y, y_err=e, model_matrix=A, parameter_spatial_positions=pos,
                     prior_covariance_function=MX.make_kernel(case["kernel"]),
                     prior_mean_function=MX.make_mean(case["mean"]))
-        h = 1e-5
         for i in range(theta.size):
+            h = steps[i]
             tp, tm_ = theta.copy(), theta.copy()
             tp[i] += h
             tm_[i] -= h
             fd = (inv.marginal_likelihood(tp) - inv.marginal_likelihood(tm_)) / (2 * h)
-            if abs(fd - out["grad"][i]) > 1e-4 * max(1.0, abs(fd), float(np.abs(out["grad"]).max())):
-                bad.append(f"gradient component {i} = {out['grad'][i]!r} but central differences give {fd!r}")
+            if abs(fd - out["grad"][i]) > 1e-4 * max(abs(fd), gmax[i]):
+                bad.append(f"gradient component {i} = {float(out['grad'][i])!r} but central differences give {fd!r}")
     except Exception as ex:
         bad.append(f"evidence could not be differenced: {ex}")
+    # ... and against central differences of the log-density of the data itself (prior built by fresh
+    # kernel / mean objects on the case's own positions, exact rational algebra, one logarithm)
+    try:
+        for i in range(theta.size):
+            h = steps[i]
+            tp, tm_ = theta.copy(), theta.copy()
+            tp[i] += h
+            tm_[i] -= h
+            fd = (reference_evidence(case, tp) - reference_evidence(case, tm_)) / (2 * h)
+            if abs(fd - out["grad"][i]) > 1e-4 * max(abs(fd), gmax[i]):
+                bad.append(f"gradient component {i} = {float(out['grad'][i])!r} but the log-density of the data has "
+                           f"derivative {fd!r}")
+    except Exception as ex:
+        bad.append(f"the log-density of the data could not be differenced: {ex}")
     return bad
+
+
+def reference_evidence(case, theta):
+    """-1/2 r^T J^-1 r - 1/2 ln det J  with J = A K A^T + diag(y_err^2), K and the prior mean from fresh
+    kernel / mean objects on the case's own positions."""
+    A, y, e, _, _ = arrays(case)
+    with warnings.catch_warnings():
+        warnings.simplefilter("ignore")
+        fcov, fmean = fresh_prior(case)
+        nm = int(fmean.n_params)
+        K = np.array(fcov.build_covariance(theta[nm:]), dtype=float)
+        pm = np.array(fmean.build_mean(theta[:nm]), dtype=float).reshape(-1)
+    Af = MX.fmat(A)
+    m = case["m"]
+    S = [[C.frac(e[i]) ** 2 if i == j else Fraction(0) for j in range(m)] for i in range(m)]
+    J = MX.f_add(MX.f_mul(MX.f_mul(Af, MX.fmat(K)), MX.f_tr(Af)), S)
+    r = MX.f_sub(MX.fmat(y), MX.f_mul(Af, MX.fmat(pm)))
+    quad = MX.f_mul(MX.f_tr(r), MX.f_solve(J, r))[0][0]
+    det = f_det(J)
+    if det <= 0:
+        raise ZeroDivisionError("det J <= 0")
+    return -0.5 * float(quad) - 0.5 * (math.log(det.numerator) - math.log(det.denominator))
 
 
 # ---------------------------------------------------------------- driver
 def describe(case):
-    return {k: case[k] for k in ("m", "n", "d", "shape", "A", "y", "y_err", "positions", "kernel", "mean", "theta")}
+    d = {k: case[k] for k in ("m", "n", "d", "shape", "A", "y", "y_err", "positions", "kernel", "mean", "theta")}
+    d.update({"unit": case.get("unit", 1.0), "gain": case.get("gain", 1.0),
+              "cov_arg": case.get("cov_arg", "instance"), "mean_arg": case.get("mean_arg", "instance")})
+    return d
+
+
+def dyadic(x):
+    return math.frexp(x)[0] == 0.5
+
+
+def unit_name(x):
+    mant, ex = math.frexp(x)
+    return f"2^{ex - 1}" if mant == 0.5 else f"{x:g}"
+
+
+def session_fails(session, i):
+    """Does inverter i of the session (all constructed first, then evaluated) violate the property?"""
+    outs, _ = run_session(session)
+    o = outs[i]
+    if o["status"] != "ok":
+        return True, o
+    return bool(oracle(session[i], o)), o
+
+
+def shrink_history(session, i):
+    """The smallest sub-history (the inverter alone, or with one other construction) that still fails."""
+    cands = [([session[i]], 0)]
+    cands += [([session[i], session[j]], 0) if j > i else ([session[j], session[i]], 1)
+              for j in range(len(session)) if j != i]
+    for cand, idx in cands:
+        try:
+            if session_fails(cand, idx)[0]:
+                return cand, idx
+        except Exception:
+            pass
+    return session, i
+
+
+def replay_of(cases, sessions, where, k):
+    """Replay record of case k: the case, and the construction history of its process when that matters."""
+    si, i = where[k]
+    sess = [cases[j] for j in sessions[si]]
+    if len(sess) > 1:
+        sess, i = shrink_history(sess, i)
+    rp = {"case": describe(sess[i])}
+    if len(sess) > 1:
+        rp["history"] = [describe(c) for c in sess]
+        rp["index"] = i
+        rp["note"] = ("all inverters of `history` are constructed in this order in one process, then inverter "
+                      "`index` is evaluated")
+    return rp
 
 
 def run(rep: C.Report, tier: str) -> int:
     r = C.rng_for(PROP, "cases")
     n_cases = 120 if tier == "quick" else 1500
+    n_scale = 32 if tier == "quick" else 300
+    n_hist = 12 if tier == "quick" else 100
     C.clean_gen(PROP)
-    C.prove_and_audit(rep, PROP, THEOREMS)
+    import time
+    phase, t_ph = {}, time.time()
 
-    cases, outs = [], []
+    def lap(name):
+        nonlocal t_ph
+        phase[name] = round(time.time() - t_ph, 2)
+        t_ph = time.time()
+        rep.coverage["phase_wall_s"] = phase
+    C.prove_and_audit(rep, PROP, THEOREMS)
+    lap("audit")
+
+    cases, sessions, stream = [], [], []
     for k in range(n_cases):
-        case = gen_case(r, k, tier)
-        out = run_impl(case)
-        cases.append(case)
-        outs.append(out)
+        cases.append(gen_case(r, k, tier))
+        sessions.append([len(cases) - 1])
+        stream.append("cases")
+    rs = C.rng_for(PROP, "scales")
+    for k in range(n_scale):
+        unit, gain = UNIT_PAIRS[k % len(UNIT_PAIRS)]
+        # k + k // len(UNIT_PAIRS): the pair -> (kernel, mean, shape) assignment changes from round to round
+        # units that are not powers of two make every rational of the model 53 bits wide (5-10 times the cost)
+        top = 6 if dyadic(unit) and dyadic(gain) else 4
+        cases.append(gen_case(rs, k + 7 * (k // len(UNIT_PAIRS)), tier, unit=unit, gain=gain, top=top))
+        sessions.append([len(cases) - 1])
+        stream.append("scales")
+    rh = C.rng_for(PROP, "histories")
+    for _ in range(n_hist):
+        sess = gen_history(rh, tier)
+        sessions.append(list(range(len(cases), len(cases) + len(sess))))
+        cases.extend(sess)
+        stream.extend(["histories"] * len(sess))
+
+    outs, observed, where = [None] * len(cases), [], {}
+    for si, idx in enumerate(sessions):
+        so, obs = run_session([cases[k] for k in idx])
+        observed.append(obs)
+        for i, k in enumerate(idx):
+            outs[k] = so[i]
+            where[k] = (si, i)
+        rep.count(f"inverters_constructed_before_first_use={len(idx)}")
+    for k, (case, out) in enumerate(zip(cases, outs)):
+        rep.count("stream=" + stream[k])
         rep.count("shape=" + case["shape"])
         rep.count(f"m={case['m']}")
         rep.count(f"n={case['n']}")
@@ -333,21 +694,53 @@ def run(rep: C.Report, tier: str) -> int:
         rep.count(f"d={case['d']}")
         rep.count("kernel=" + MX.kernel_name(case["kernel"]))
         rep.count("mean=" + case["mean"])
+        rep.count("kernel_argument=" + case["cov_arg"])
+        rep.count("mean_argument=" + case["mean_arg"])
+        rep.count(f"signal_unit={unit_name(case['unit'])}")
+        rep.count(f"model_gain={unit_name(case['gain'])}")
+        _e = MX.unhex(case["y_err"])
+        rep.count("min(y_err)<=1e%d" % math.ceil(math.log10(float(_e.min()))))
         rep.count("cond(I+KW)<=1e%d" % max(0, math.ceil(math.log10(case["cond_system"]))))
         rep.case(describe(case), nontrivial=case["rank"] > 0)
-        if k < 3:
-            rep.sample({"config": {k2: case[k2] for k2 in ("m", "n", "d", "shape", "rank", "mean")},
+        if k < 2 or (stream[k] != "cases" and stream[k - 1] != stream[k]):
+            rep.sample({"stream": stream[k],
+                        "config": {k2: case[k2] for k2 in ("m", "n", "d", "shape", "rank", "mean", "unit", "gain",
+                                                            "cov_arg", "mean_arg")},
                         "kernel": MX.kernel_name(case["kernel"]),
                         "impl_posterior_mean": out.get("pmean"), "impl_lml": out.get("lml")})
 
+    lap("generate+run implementation")
     suspicious = {}
     ok_idx = [k for k, o in enumerate(outs) if o["status"] == "ok"]
     for k, o in enumerate(outs):
         if o["status"] != "ok":
             suspicious[k] = f"{o['status']} in {o['stage']}: {o['error']}"
+        elif o.get("foreign"):
+            suspicious[k] = o["foreign"]
+
+    # the construction histories: model (Model/InversionHistory.v) against the observed objects
+    hbody = ("Definition cases : list hist_case :=\n [" + ";\n  ".join(coq_hist(o) for o in observed) + "].")
+    hfile = C.write_case_file(PROP, "history", HIST_HEADER, hbody, ["failing_hist cases"])
+    hist_fail = {}
+    ok, res, log = C.run_case_file(hfile, timeout=600)
+    if not ok or 0 not in res:
+        rep.obligation(False, 5 * len(sessions))
+        rep.violation("C17/correspondence-run", "the history file did not evaluate",
+                      {"theorem_or_correspondence": "correspondence file history.v", "log": log}, False)
+    else:
+        fails = MX.decode_failures(res[0])
+        for si in range(len(sessions)):
+            fo = fails.get(si, [])
+            rep.obligation(True, 5 - len(fo))
+            if fo:
+                rep.obligation(False, len(fo))
+                hist_fail[si] = fo
+    rep.coverage["history_sessions"] = len(sessions)
+    rep.coverage["history_obligations_per_session"] = HIST_OBLIGATION_NAMES
 
     def weight(k):
-        return (cases[k]["n"] ** 4 + cases[k]["m"] ** 4) * (1 + len(outs[k]["dK"]))
+        w = (cases[k]["n"] ** 4 + cases[k]["m"] ** 4) * (1 + len(outs[k]["dK"]))
+        return w * (1 if dyadic(cases[k]["unit"]) else 5) * (1 if dyadic(cases[k]["gain"]) else 8)
     order = sorted(ok_idx, key=lambda k: -weight(k))
     nfiles = max(1, min(len(order), 14 if tier == "quick" else 56))
     buckets = [[] for _ in range(nfiles)]
@@ -364,7 +757,9 @@ def run(rep: C.Report, tier: str) -> int:
         body = ("Definition cases : list lin_case :=\n [" + ";\n  ".join(texts[k] for k in bucket) + "].")
         files.append(C.write_case_file(PROP, f"cases_{j}", HEADER, body, ["failing_lin cases"]))
         index.append(bucket)
+    lap("history model")
     results = C.run_case_files(files, jobs=14, timeout=1500)
+    lap("case files (vm_compute)")
     obligation_fail = {}
     n_checked = 0
     for p, idx, (ok, res, log) in zip(files, index, results):
@@ -383,7 +778,9 @@ def run(rep: C.Report, tier: str) -> int:
         n_checked += len(idx)
 
     # evidence value: one interval goal per case (a slice of the cases in the quick tier)
-    ev_idx = ok_idx[::3] if tier == "quick" else ok_idx[::2]
+    # (every scaled case: the evidence is the one output in which an absolute constant can hide)
+    step = 3 if tier == "quick" else 2
+    ev_idx = [k for j, k in enumerate(ok_idx) if j % step == 0 or (stream[k] == "scales" and tier == "quick")]
     from concurrent.futures import ThreadPoolExecutor
     goals = [(k, f"lml_goal case_{k}", "lml_tac") for k in ev_idx]
     chunks = [goals[i::14] for i in range(14) if goals[i::14]]
@@ -398,6 +795,7 @@ def run(rep: C.Report, tier: str) -> int:
             failed.extend(fl)
             if br:
                 broken.append(br)
+    lap("evidence goals (coq-interval)")
     for br in broken:
         rep.obligation(False)
         rep.violation("C17/evidence-run", "an evidence goal file did not run",
@@ -407,43 +805,86 @@ def run(rep: C.Report, tier: str) -> int:
         rep.obligation(False)
         obligation_fail.setdefault(k, []).append(8)
     for k, fo in obligation_fail.items():
-        suspicious[k] = "; ".join(OBLIGATION_NAMES[o] for o in fo)
+        suspicious[k] = "; ".join(filter(None, [suspicious.get(k)] + [OBLIGATION_NAMES[o] for o in fo]))
     rep.coverage["cases_validated_against_impl"] = n_checked
     rep.coverage["evidence_goals"] = len(goals)
     rep.coverage["correspondence_disagreements"] = len(suspicious)
     rep.coverage["obligations_per_case"] = OBLIGATION_NAMES
 
-    for k in sorted(suspicious)[:12]:
+    for si, fo in hist_fail.items():
+        for k in sessions[si]:
+            if outs[k]["status"] == "ok" and where[k][1] < len(sessions[si]):
+                i = where[k][1]
+                mine = [0] if 0 in fo else []
+                for o, key in ((1, "cov_alias"), (2, "mean_alias")):
+                    al = observed[si][key]
+                    if o in fo and (al[i] != i or any(a == i for j, a in enumerate(al) if j != i)):
+                        mine.append(o)
+                if 3 in fo and i not in observed[si]["cov_hold"][i]:
+                    mine.append(3)
+                if 4 in fo and i not in observed[si]["mean_hold"][i]:
+                    mine.append(4)
+                if mine:
+                    suspicious[k] = "; ".join(filter(None, [suspicious.get(k)] + [HIST_OBLIGATION_NAMES[o] for o in mine]))
+    rep.coverage["correspondence_disagreements"] = len(suspicious)
+
+    def hist_text(k, rp=None):
+        n, i = len(sessions[where[k][0]]), where[k][1]
+        if rp is not None and "history" in rp:
+            n, i = len(rp["history"]), rp["index"]
+        return "" if n == 1 else f" [inverter {i + 1} of {n} constructed in the same process before any was used]"
+
+    reported = 0
+    # silently wrong numbers first, then exceptions, then the rest
+    for k in sorted(suspicious, key=lambda k: (1 if outs[k]["status"] != "ok" else 0 if outs[k].get("foreign") else 2, k)):
+        if reported >= 12:
+            break
+        reported += 1
         case, out = cases[k], outs[k]
         if out["status"] != "ok":
-            rep.violation("C17/exception", f"GpLinearInverter failed on a valid input ({suspicious[k]})",
-                          {"case": describe(case), "impl": {k2: out[k2] for k2 in ("status", "stage", "error")}}, True)
+            rp = replay_of(cases, sessions, where, k)
+            rp["impl"] = {k2: out[k2] for k2 in ("status", "stage", "error")}
+            rep.violation("C17/exception", f"GpLinearInverter failed on a valid input ({suspicious[k]})" + hist_text(k, rp),
+                          rp, True)
             continue
         bad = oracle(case, out)
         if bad:
-            rep.violation("C17/property", "; ".join(bad[:3]),
-                          {"case": describe(case), "failing_obligations": obligation_fail.get(k)}, True)
+            rp = replay_of(cases, sessions, where, k)
+            rp["failing_obligations"] = obligation_fail.get(k)
+            rp["history_obligations"] = hist_fail.get(where[k][0])
+            rep.violation("C17/property", "; ".join(bad[:3]) + hist_text(k, rp), rp, True)
         else:
             rep.violation("C17/correspondence",
                           "implementation and model disagree (" + suspicious[k] +
-                          "), but the property was not seen to fail on this input",
-                          {"theorem_or_correspondence": "Matrix.InversionCheck.check_lin (correspondence with GpLinearInverter)",
-                           "failing_obligations": obligation_fail.get(k), "case": describe(case)}, False)
+                          "), but the property was not seen to fail on this input" + hist_text(k),
+                          {"theorem_or_correspondence": "Matrix.InversionCheck.check_lin / Model.InversionHistory.check_hist "
+                                                        "(correspondence with GpLinearInverter)",
+                           "failing_obligations": obligation_fail.get(k),
+                           "history_obligations": hist_fail.get(where[k][0]),
+                           "case": describe(case),
+                           "history": [describe(cases[j]) for j in sessions[where[k][0]]], "index": where[k][1]}, False)
 
     n_or = 0
-    for k in ok_idx[::6 if tier == "quick" else 3]:
+    for j, k in enumerate(ok_idx):
+        if j % (6 if tier == "quick" else 3) and not (stream[k] != "cases" and j % 2 == 0 and tier == "quick"):
+            continue
         if k in suspicious:
             continue
         bad = oracle(cases[k], outs[k])
         n_or += 1
         if bad:
-            rep.violation("C17/property", "; ".join(bad[:3]), {"case": describe(cases[k])}, True)
+            rp = replay_of(cases, sessions, where, k)
+            rep.violation("C17/property", "; ".join(bad[:3]) + hist_text(k, rp), rp, True)
     rep.coverage["oracle_runs"] = n_or
+    lap("oracle")
 
     rep.assumptions = [
         "scipy.linalg.solve / cholesky / solve_triangular are exact in the theorems; the run compares every output "
         "to 1e-7*scale on inputs with cond(I+KW), cond(J) <= 1e6",
-        "kernel and mean-function values and their hyper-parameter gradients are inputs of the model (C10)",
+        "kernel and mean-function values and their hyper-parameter gradients are inputs of the model (C10); they are "
+        "built by fresh kernel / mean objects on the inverter's own positions, and the inverter's own objects must "
+        "reproduce them (C17_history_own_positions is the theorem, history.v the correspondence)",
+        "a caller-made kernel / mean instance is given to at most one constructor (hypothesis wf_history)",
         "that the trace forms of the gradient are the derivative of the evidence (Jacobi's formula, "
         "d(J^-1) = -J^-1 dJ J^-1) is cited, not proved; it is tested [R] by central differences of the "
         "implementation's own marginal_likelihood",
@@ -459,7 +900,13 @@ def run(rep: C.Report, tier: str) -> int:
                                     "Matrix/ListOps.v (executable matrix instance; inverses verified at run time)"],
         rule="configurations walk kernel (SE, RQ, SE+WN, SE+RQ, ChangePoint(SE,RQ)) x mean (3) x shape of A (tall, "
              "wide, square, rank-deficient: duplicated row / zero column / rank 1 / zero matrix); m, n <= 7; positions "
-             "in 1-2 D; A entries multiples of 1/16; resampled until cond <= 1e6; a case is non-trivial when A != 0")
+             "in 1-2 D; A entries multiples of 1/16; resampled until cond <= 1e6; a case is non-trivial when A != 0. "
+             "Stream `scales`: the same walk with the signal in units 2^-40..2^20, 3e-9..1e4 and / or a forward-model "
+             "gain 2^-20..2^10, 1e-6, 1e-3 (20 fixed pairs, all visited every run; y_err down to ~1e-13), tolerances "
+             "relative to the unit. Stream `histories`: sessions of 2-4 inverters constructed in one process before any "
+             "is used, >= 2 of them with the kernel left at its default, the others default / class / instance, 3 in 4 "
+             "sessions with one common number of parameters, positions always different; the model of the object "
+             "structure (Model/InversionHistory.v) is evaluated on every session (also the single-inverter ones)")
 
 
 def replay(path):
@@ -469,12 +916,17 @@ def replay(path):
     if "case" not in rp:
         print("replay names a broken theorem / correspondence:", rp.get("theorem_or_correspondence"))
         return 1
-    case = rp["case"]
-    out = run_impl(case)
+    session, i = (rp["history"], rp["index"]) if "history" in rp else ([rp["case"]], 0)
+    if len(session) > 1:
+        print(f"constructing {len(session)} inverters in this process, then evaluating number {i + 1}")
+    outs, obs = run_session(session)
+    case, out = session[i], outs[i]
     if out["status"] != "ok":
         print("implementation fails:", out)
         return 1
     bad = oracle(case, out)
     print("implementation returns: posterior mean", out["pmean"], "evidence", out["lml"])
+    if out.get("foreign"):
+        print("note:", out["foreign"])
     print("property failures:", bad)
     return 1 if bad else 0
